@@ -13,10 +13,11 @@ import TypelibModel.Drv.Cache
 import TypelibModel.Drv.Routine
 import TypelibModel.Drv.Fields
 import TypelibModel.Drv.Naming
+import TypelibModel.Drv.Hints
 open Lean Typelib.Drv
 
 def handlers : List (St → String → Json → Option (Except String (St × Json))) :=
-  [handleCore, handleBinding, handleFuture, handleCtx, handleSlotted, handleGraph, handleInspect, handleCache, handleRoutine, handleFields, handleNaming]
+  [handleCore, handleBinding, handleFuture, handleCtx, handleSlotted, handleGraph, handleInspect, handleCache, handleRoutine, handleFields, handleNaming, handleHints]
 
 def step (st : St) (line : String) : St × String :=
   match Json.parse line with
